@@ -65,3 +65,26 @@ def nested(kind, depth, leaf=None):
     if kind == 'type_list':
         return '[' * depth + 'T' + ']' * depth
     raise ValueError(kind)
+
+
+HEX4 = ['0000', '0041', 'D7FF', 'd800', 'D83D', 'DBFF', 'DC00', 'DE00', 'DFFF', 'E000', 'FFFF', '12', '', 'G000', '00g0', '+123', ' 041']
+HEXV = ['0', '41', 'D7FF', 'D800', 'DFFF', 'E000', '10FFFF', '110000', '000000041', '', 'FFFFFFFF', 'g', '1F600', ' 41']
+
+
+def escape_soup(rng):
+    """A quoted or block string assembled from well- and ill-formed escape sequences."""
+    out = [rng.choice(['"', '"', '"""'])]
+    for _ in range(rng.randint(1, 4)):
+        k = rng.random()
+        if k < 0.35:
+            out.append('\\u' + rng.choice(HEX4))
+        elif k < 0.55:
+            out.append('\\u' + rng.choice(HEX4) + '\\u' + rng.choice(HEX4))
+        elif k < 0.75:
+            out.append('\\u{' + rng.choice(HEXV) + rng.choice(['}', '}', '', ' }']))
+        elif k < 0.85:
+            out.append('\\' + rng.choice(list('nrtbf/"\\xU0 ') + ['']))
+        else:
+            out.append(rng.choice(['a', ' ', '\n', LONE[0], LONE[3], HOSTILE[rng.randrange(len(HOSTILE))]]))
+    out.append(rng.choice([out[0], out[0], out[0], '', '"']))
+    return ''.join(out)
